@@ -34,6 +34,7 @@ CONSTANTS
     SysDomSet,      \* subset of BOOLEAN: the system name has a domain part
     NoRedSet,       \* subset of BOOLEAN: per-spec no_redact
     NoObfSets,      \* set of per-spec no_obfuscate sets
+    WidthSet,       \* subset of BOOLEAN: per-spec fixed-width mode (the netstat spec)
     FamSet,         \* concretisation families, subset of AllFam
     AllowBlank,     \* BOOLEAN: blank lines in the content
     Runs,           \* fresh-cleaner runs of the same case
@@ -41,7 +42,10 @@ CONSTANTS
     FreeOrder       \* BOOLEAN: every run picks its own order (demonstration config only)
 
 AllKinds == {"text", "ip", "loop", "short", "fqdn", "dom", "mac", "nullmac", "kw", "pat", "pw"}
-AllDel   == {"edge", "space", "punct", "word", "same"}
+(* delimiter classes: line start / end, white space, punctuation (never    *)
+(* ':' '-' '.' '_'), ':' , '-', a dot with digits ('.443' on the right,      *)
+(* '7.' on the left), a letter or '_', a digit (for a MAC: a hex digit)     *)
+AllDel   == {"edge", "space", "punct", "colon", "dash", "dotnum", "alpha", "digit"}
 Obfs     == {"hostname", "ip", "keyword", "mac", "password"}
 (* Families say what the driver puts underneath the ids:                    *)
 (*   plain   values that cannot collide with anything the obfuscators issue *)
@@ -79,7 +83,7 @@ IdsOf(k) == CASE k = "ip"  -> 1..NIp
               [] OTHER     -> {0}
 TokSet  == UNION {{[k |-> k, id |-> i, l |-> l, r |-> r] : i \in IdsOf(k), l \in DelSet, r \in DelSet} : k \in Kinds}
 LineSet == UNION {[1..n -> TokSet] : n \in (IF AllowBlank THEN 0 ELSE 1)..MaxTok}
-SpSet   == [nored : NoRedSet, noobf : NoObfSets]
+SpSet   == [nored : NoRedSet, noobf : NoObfSets, width : WidthSet]
 Cfgs    == {c \in [obf : ObfSet, host : HostSet, mac : MacSet, kws : KwSets, pats : PatSets,
                    regex : RegexSet, sysdom : SysDomSet, fam : FamSet] :
                 /\ (c.pats = {} => ~c.regex \/ RegexSet = {TRUE})
@@ -91,15 +95,26 @@ Orders  == IF AllOrders
 -----------------------------------------------------------------------------
 (* The statement of C08, token by token.                                    *)
 Delimited(t) == t.l \in {"edge", "space", "punct"} /\ t.r \in {"edge", "space", "punct"}
+(* IPv4 (reading revised): the statement has no delimiter condition for     *)
+(* addresses.  A canonical dotted quad must be hidden whenever it is        *)
+(* maximal: not preceded by a digit or a dot (nor glued to an identifier),  *)
+(* not continued by a digit - in particular in address.port, address:port,  *)
+(* address/prefix, (address), address, notation.                            *)
+IpMaximal(t) == /\ t.l \in {"edge", "space", "punct", "colon", "dash"}
+                /\ t.r \in {"edge", "space", "punct", "colon", "dash", "dotnum", "alpha"}
+(* MAC: "delimited by non-word characters"; ':' and '-' continue the MAC    *)
+(* syntax (DESIGN reading iii), a dot does not.                             *)
+MacDelimited(t) == t.l \in {"edge", "space", "punct", "dotnum"} /\ t.r \in {"edge", "space", "punct", "dotnum"}
+DelimK(t) == CASE t.k = "ip" -> IpMaximal(t) [] t.k = "mac" -> MacDelimited(t) [] OTHER -> Delimited(t)
 
 Exempt(o, sp) == o \in sp.noobf
 MustHide(t, c, sp) ==
     CASE t.k = "kw"  -> t.id \in c.kws /\ ~Exempt("keyword", sp)
       [] t.k = "pw"  -> ~Exempt("password", sp)
-      [] t.k = "ip"  -> c.obf /\ ~Exempt("ip", sp) /\ Delimited(t)
+      [] t.k = "ip"  -> c.obf /\ ~Exempt("ip", sp) /\ IpMaximal(t)
       [] t.k \in {"short", "fqdn"} -> c.obf /\ c.host /\ ~Exempt("hostname", sp)
       [] t.k = "dom" -> c.obf /\ c.host /\ c.sysdom /\ ~Exempt("hostname", sp)
-      [] t.k = "mac" -> c.obf /\ c.mac /\ ~Exempt("mac", sp) /\ Delimited(t)
+      [] t.k = "mac" -> c.obf /\ c.mac /\ ~Exempt("mac", sp) /\ MacDelimited(t)
       [] OTHER       -> FALSE        \* text, loopback, all-zero / broadcast MAC, pattern text
 MustDrop(line, c, sp) ==
     ~sp.nored /\ \E i \in DOMAIN line : line[i].k = "pat" /\ line[i].id \in c.pats
@@ -113,7 +128,7 @@ Sys       == <<"host", 0>>
 Competing(c) == c.fam \in {"kwdom", "pwip"}
 (* an occurrence the mapping must account for: a delimited occurrence that  *)
 (* has to be hidden, of a kind that is mapped                               *)
-MustMap(t, c, sp) == Group(t.k) \in {"ip", "host", "mac"} /\ Delimited(t) /\ MustHide(t, c, sp)
+MustMap(t, c, sp) == Group(t.k) \in {"ip", "host", "mac"} /\ DelimK(t) /\ MustHide(t, c, sp)
 
 -----------------------------------------------------------------------------
 (* The pipeline (cleaner/__init__.py:125-146): the enabled obfuscators are  *)
@@ -127,8 +142,8 @@ Rec(o, t, c) ==
     CASE o = "keyword"  -> \/ t.k = "kw" /\ t.id \in c.kws
                            \/ c.fam = "kwdom" /\ t.k \in {"fqdn", "dom"} /\ c.sysdom /\ 1 \in c.kws
       [] o = "hostname" -> t.k \in {"short", "fqdn"} \/ (t.k = "dom" /\ c.sysdom)
-      [] o = "ip"       -> (t.k = "ip" /\ Delimited(t)) \/ (c.fam = "pwip" /\ t.k = "pw")
-      [] o = "mac"      -> t.k = "mac" /\ Delimited(t)
+      [] o = "ip"       -> (t.k = "ip" /\ IpMaximal(t)) \/ (c.fam = "pwip" /\ t.k = "pw")
+      [] o = "mac"      -> t.k = "mac" /\ MacDelimited(t)
       [] OTHER          -> t.k = "pw"
 RECURSIVE First(_, _, _, _, _)
 First(t, c, sp, od, j) ==
